@@ -149,13 +149,23 @@ func c12DrawVal(t *rapid.T, vals []c12Val, label string) c12Val {
 	return vals[rapid.IntRange(0, len(vals)-1).Draw(t, label)]
 }
 
-// c12DrawPayload draws 0..6 parameters with decodable values; with bad != "" exactly one defect is injected:
+// c12DrawPayload draws 0..6 parameters with decodable values (bad == "wide": 12 consecutive parameters);
+// with another non-empty bad exactly one defect is injected:
 //
 //	"decode"  one parameter gets an undecodable value
 //	"sem"     one parameter gets a value that breaks a documented rule
 //	"struct"  unknown parameter / malformed JSON / not an object
 func c12DrawPayload(t *rapid.T, fs *c12FieldSet, bad string) *c12Payload {
 	p := &c12Payload{Vals: map[string]c12Val{}}
+	if bad == "wide" {
+		// a run of consecutive parameters in declaration order: every parameter of the tables is exercised often
+		start := rapid.IntRange(0, len(fs.All)-1).Draw(t, "wideStart")
+		for i := 0; i < 12 && start+i < len(fs.All); i++ {
+			f := fs.By[fs.All[start+i]]
+			p.set(f.JSON, c12DrawVal(t, f.Good, "value"))
+		}
+		return p
+	}
 	n := rapid.SampledFrom([]int{0, 1, 1, 2, 2, 3, 3, 4, 6}).Draw(t, "nFields")
 	for i := 0; i < n; i++ {
 		var f c12Field
@@ -493,14 +503,17 @@ func TestVerifC12ConfigEdits(t *testing.T) {
 
 		// drawEdit draws a payload steering towards the wanted outcome; apply builds the candidate model.
 		drawEdit := func(t *rapid.T, fs *c12FieldSet, apply func(p *c12Payload) *c12Model) (*c12Payload, *c12Model) {
-			mode := rapid.SampledFrom([]string{"", "", "", "", "", "sem", "sem", "decode", "struct"}).Draw(t, "mode")
+			mode := rapid.SampledFrom([]string{"", "", "", "", "wide", "sem", "sem", "decode", "struct"}).Draw(t, "mode")
+			if mode == "wide" {
+				st.classes["wide-payload"] = true
+			}
 			var p *c12Payload
 			var cand *c12Model
 			for try := 0; try < 4; try++ {
 				p = c12DrawPayload(t, fs, mode)
 				cand = apply(p)
 				hard, _ := c12ConfViolations(cand)
-				if mode != "" || len(p.decodeBad()) != 0 || len(hard) == 0 {
+				if (mode != "" && mode != "wide") || len(p.decodeBad()) != 0 || len(hard) == 0 {
 					break
 				}
 			}
